@@ -31,7 +31,16 @@ type Hidden struct {
 	OnHook func(id int64)
 }
 
+// Base is embedded in Fact: its field and method are promoted.
+type Base struct {
+	BI int64
+}
+
+// BasePlus is a promoted value-receiver method.
+func (b Base) BasePlus(x int64) int64 { return b.BI + x }
+
 type Fact struct {
+	Base
 	I, I2  int64
 	I8     int8
 	I16    int16
@@ -60,6 +69,8 @@ type Fact struct {
 	SelArr []int64
 	Grid   [][]int64                   // two selector levels
 	Book   map[string]map[string]int64 // two selector levels
+	MK     map[int64]int64             // integer keys
+	A3     [3]int64                    // a Go array (not a slice)
 	// values behind a pointer / inside an interface (what decoded settings look like)
 	PB *bool
 	PS *string
@@ -210,6 +221,12 @@ func (f *Fact) Clone() *Fact {
 		c.PI = &v
 	}
 	c.P = cloneSub(f.P, 0)
+	if f.MK != nil {
+		c.MK = map[int64]int64{}
+		for k, v := range f.MK {
+			c.MK[k] = v
+		}
+	}
 	if f.PB != nil {
 		v := *f.PB
 		c.PB = &v
@@ -314,6 +331,15 @@ func (f *Fact) Dump() string {
 	}
 	if f.SelArr != nil {
 		fmt.Fprintf(&b, " SelArr:%v", f.SelArr)
+	}
+	if f.BI != 0 {
+		fmt.Fprintf(&b, " BI:%d", f.BI)
+	}
+	if f.MK != nil {
+		fmt.Fprintf(&b, " MK:%v", f.MK) // fmt prints maps with sorted keys
+	}
+	if f.A3 != [3]int64{} {
+		fmt.Fprintf(&b, " A3:%v", f.A3)
 	}
 	if f.PB != nil {
 		fmt.Fprintf(&b, " PB:%v", *f.PB)
